@@ -1,7 +1,7 @@
 (* Property C15 - only statements, each closed by [exact]. *)
 From Coq Require Import NArith List Bool.
 Import ListNotations.
-Require Import UV.C15.Model UV.C15.Doc UV.C15.Proofs.
+Require Import UV.C15.Model UV.C15.Doc UV.C15.GraphF UV.C15.Proofs.
 Local Open Scope N_scope.
 
 (* Function names and string arguments: whatever bytes a name consists of, the text that
@@ -242,3 +242,28 @@ Theorem C15_flame_total_bound_refuted :
   /\ time_path [[109]] (ref_calls [100] overcount_witness) = 1200.
 Proof. exact flame_total_bound_refuted. Qed.
 Print Assumptions C15_flame_total_bound_refuted.
+
+(* ---------------------------------------------------------------------------------------------------------- *)
+(* `uftrace graph FUNC` (cmds/graph.c with a function argument: start_graph / end_graph / tg->enabled): for EVERY
+   well-formed stream and every name path q, the node reached by q below the root line (FUNC) counts the calls whose
+   name path, cut after the OUTERMOST occurrence of FUNC, is q, and carries the sum of their durations; the root
+   line itself (q = []) counts and times the outermost calls of FUNC.  Recursion of FUNC, several tasks, open calls. *)
+Theorem C15_graph_func_sums : forall func tids s q, wf_stream s = true -> NoDup tids ->
+  calls_at q (graphf_build func tids s) = countf func q (ref_entries [] s)
+  /\ time_at q (graphf_build func tids s) = timef func q (ref_calls tids s) mod W64.
+Proof. exact graphf_sums. Qed.
+Print Assumptions C15_graph_func_sums.
+
+Theorem C15_graph_func_rows : forall func tids s, wf_stream s = true -> NoDup tids ->
+  forall e, In e (walk_root (graphf_build func tids s)) ->
+    n_calls (w_node e) = countf func (w_path e) (ref_entries [] s)
+    /\ n_time (w_node e) = timef func (w_path e) (ref_calls tids s) mod W64
+    /\ n_name (w_node e) = last (w_path e) [].
+Proof. exact graphf_walk_faithful. Qed.
+Print Assumptions C15_graph_func_rows.
+
+Theorem C15_graph_func_rows_complete : forall func tids s, wf_stream s = true -> NoDup tids ->
+  forall q, q <> [] -> countf func q (ref_entries [] s) <> 0 ->
+    exists e, In e (walk_root (graphf_build func tids s)) /\ w_path e = q.
+Proof. exact graphf_walk_complete. Qed.
+Print Assumptions C15_graph_func_rows_complete.
